@@ -1616,9 +1616,27 @@ class Scalar(Qube):
 
         # 0-D case
         if not self._shape_ and not expo._shape_:
+
+            # A masked base or exponent yields a masked result. The numbers
+            # stored underneath the masks are not consulted: neither for the
+            # value, nor for the units, nor for an exception.
+            if self._mask_ or expo._mask_:
+                if expo._mask_:
+                    new_units = self._units_
+                else:
+                    new_units = self._units_to_power(expo._values_)
+
+                obj = Scalar.__new__(type(self))
+                obj.__init__(self._default_, True, units=new_units)
+                if recursive:
+                    for (key, deriv) in self._derivs_.items():
+                        obj.insert_deriv(key,
+                                  deriv.masked_single(recursive=False).copy())
+                return obj
+
             try:
                 new_values = self._values_ ** expo._values_
-            except (ValueError, ZeroDivisionError):
+            except (ValueError, ZeroDivisionError, OverflowError):
                 return self.masked_single(recursive)
 
             if not isinstance(new_values, numbers.Real):
@@ -1654,7 +1672,10 @@ class Scalar(Qube):
 
             # Check units and exponent
             if np.isscalar(expo._values_):
-                new_units = self._units_to_power(expo._values_)
+                if expo._mask_:         # the power is unknown; result is masked
+                    new_units = self._units_
+                else:
+                    new_units = self._units_to_power(expo._values_)
             elif Units.is_unitless(self._units_):
                 new_units = None
             else:
